@@ -156,8 +156,15 @@ def _worker(args):
             state["truncated"] = True
             return
         case = dict(case); case["set"] = dict(case["set"]); case["set"].setdefault("prop", mod.ID)
+        if hasattr(mod, "evaluate"):
+            for (text, v) in mod.evaluate(case, runner):
+                account(case, text, v)
+            return
         text = render(case)
         v = runner.run(text)
+        account(case, text, v)
+
+    def account(case, text, v):
         h = case_hash(text)
         vv = v.get("v")
         if vv == "skip":
